@@ -178,6 +178,22 @@ where
         {
             closed_states[state_i] = Some(core_states[state_i].close(grm, &firsts));
             let cl_state = &closed_states[state_i].as_ref().unwrap();
+            // Verification hook (add-only): record which state is processed and the order in which
+            // its closed item set's hash map yields its keys -- the only hash order the resulting
+            // stategraph depends on.
+            #[cfg(grmtools_verif)]
+            if VERIF_PAGER_TRACE_ON.with(|c| c.get()) {
+                VERIF_PAGER_TRACE.with(|t| {
+                    t.borrow_mut().push((
+                        state_i,
+                        cl_state
+                            .items
+                            .keys()
+                            .map(|&(pidx, dot)| (usize::from(pidx), usize::from(dot)))
+                            .collect(),
+                    ))
+                });
+            }
             seen_rules.set_all(false);
             seen_tokens.set_all(false);
             for &(pidx, dot) in cl_state.items.keys() {
@@ -392,6 +408,30 @@ where
     }
 
     (gc_states, gc_edges)
+}
+
+#[cfg(grmtools_verif)]
+thread_local! {
+    /// Verification hook (add-only): one `(state_i, keys of the closed state in hash order)` entry
+    /// per iteration of the main loop of `pager_stategraph` run on this thread while recording is on.
+    static VERIF_PAGER_TRACE: std::cell::RefCell<Vec<(usize, Vec<(usize, usize)>)>> =
+        const { std::cell::RefCell::new(Vec::new()) };
+    /// Recording is off unless switched on with `verif_pager_trace_enable(true)`.
+    static VERIF_PAGER_TRACE_ON: std::cell::Cell<bool> = const { std::cell::Cell::new(false) };
+}
+
+/// Verification hook (add-only; compiled only with `--cfg grmtools_verif`): switch the recording
+/// of the `pager_stategraph` trace on or off for this thread (off by default).
+#[cfg(grmtools_verif)]
+pub fn verif_pager_trace_enable(on: bool) {
+    VERIF_PAGER_TRACE_ON.with(|c| c.set(on));
+}
+
+/// Verification hook (add-only; compiled only with `--cfg grmtools_verif`): take (and clear) the
+/// trace recorded by the `pager_stategraph` runs of this thread since the last call.
+#[cfg(grmtools_verif)]
+pub fn verif_take_pager_trace() -> Vec<(usize, Vec<(usize, usize)>)> {
+    VERIF_PAGER_TRACE.with(|t| std::mem::take(&mut *t.borrow_mut()))
 }
 
 /// Verification hook (add-only; compiled only with `--cfg grmtools_verif`): the private
